@@ -462,6 +462,7 @@ def o_C14(cases, rust, lean, V, wd):
 
 def o_C15(cases, rust, lean, V, wd):
     check_encoded(cases, rust, V, wd, layout=False, lean=lean)
+    judge_api(cases, rust, lean, V, wd)
 
 def rr_layout_problems(b):
     w = Walker(b)
